@@ -21,7 +21,20 @@ func init() {
 		if err := c01(cfg, emit); err != nil {
 			return err
 		}
-		return c01w(cfg, emit)
+		if err := c01w(cfg, emit); err != nil {
+			return err
+		}
+		// as a server sees it: the same invocation has been received before with every proof embedded
+		ns := 240
+		if cfg.Thorough() {
+			ns = 5000
+		}
+		genWorlds(cfg, ns, genOpts{minDepth: 1, maxDepth: 5, sessions: true, sessionPct: 20, kinds: []string{"missing", "missing", "none", "wrongkey", "aud"}}, func(w *AWorld, class string) {
+			w.Services = []ASvc{{Can: w.Desc.Can, Result: "ok"}}
+			w.Invs = []int{w.Inv}
+			emit("serve", []string{"C01", mustJSON(w)}, "served/"+class, true)
+		})
+		return nil
 	}
 	// C02: restricting caveats at every level, all three derivation rules, re-delegated attestations
 	c02 := worldGen("C02", 2000, 40000, genOpts{maxDepth: 5, sessions: true, sessionPct: 30, caveats: true, caveatPct: 60,
@@ -30,8 +43,14 @@ func init() {
 	// what the worker may attest)
 	c02att := worldGen("C02", 240, 5000, genOpts{minDepth: 1, maxDepth: 4, sessions: true, sessionPct: 100, attVariant: 4, caveats: true, caveatPct: 30,
 		kinds: []string{"none", "none", "permute", "decoys"}})
+	// and one for an unattested account token next to another account's attested one
+	c02two := worldGen("C02", 160, 3000, genOpts{minDepth: 1, maxDepth: 4, sessions: true, sessionPct: 100, attVariant: 14,
+		kinds: []string{"none", "none", "permute"}})
 	gens["C02"] = func(cfg Config, emit Emit) error {
 		if err := c02(cfg, emit); err != nil {
+			return err
+		}
+		if err := c02two(cfg, emit); err != nil {
 			return err
 		}
 		return c02att(cfg, emit)
@@ -46,6 +65,10 @@ func init() {
 			return err
 		}
 		if err := c04w(cfg, emit); err != nil {
+			return err
+		}
+		if err := worldGen("C04", 160, 3000, genOpts{minDepth: 1, maxDepth: 4, sessions: true, sessionPct: 100, attVariant: 14,
+			kinds: []string{"none", "none", "permute"}})(cfg, emit); err != nil {
 			return err
 		}
 		// the same, as a server applies it: the server has answered the batch before, when the account's
@@ -85,8 +108,26 @@ func init() {
 		return nil
 	}
 	// C06: valid chains surrounded by decoys, permutations, duplicates, link-only proofs
-	gens["C06"] = worldGen("C06", 2000, 40000, genOpts{maxDepth: 6, sessions: true, sessionPct: 25, caveats: true, caveatPct: 20,
+	c06 := worldGen("C06", 2000, 40000, genOpts{maxDepth: 6, sessions: true, sessionPct: 25, caveats: true, caveatPct: 20,
 		kinds: []string{"none", "permute", "decoys", "dup", "missing", "nbf-ok", "deadend", "deadend", "permute", "expired", "wrongkey", "parsefail", "twincap", "deadend"}})
+	gens["C06"] = func(cfg Config, emit Emit) error {
+		if err := c06(cfg, emit); err != nil {
+			return err
+		}
+		// the readers a capability is parsed with must not remember each other's verdicts
+		genDidRead(cfg, emit)
+		// and the search as a server runs it (chains of several embedded delegations)
+		ns := 200
+		if cfg.Thorough() {
+			ns = 4000
+		}
+		genWorlds(cfg, ns, genOpts{minDepth: 2, maxDepth: 6, sessions: true, sessionPct: 20, kinds: []string{"none", "none", "decoys", "permute", "deadend"}}, func(w *AWorld, class string) {
+			w.Services = []ASvc{{Can: w.Desc.Can, Result: "ok"}}
+			w.Invs = []int{w.Inv}
+			emit("serve", []string{"C06", mustJSON(w)}, "served/"+class, true)
+		})
+		return nil
+	}
 }
 
 func without(l []string, x string) []string {
